@@ -64,6 +64,19 @@ def cases(tier, seed):
             for arg in args:
                 for P in (0, 1, 4):
                     out.append({"key": f"graded/{fn}/{m}x{n}/P={P}/arg={arg}", "fn": fn, "m": m, "n": n, "r": 4, "R": 4, "P": P, "arg": arg, "graded": True, "S": 2})
+    # close-but-distinct singular values and values just above float32 / float16 rounding midpoints (relative to sigma_1), rank(A) = R
+    SPECIAL_SPECTRA = {
+        "close3": [1.0, 1.0 - 3e-6, 0.5], "close4": [2.0, 2.0 - 8e-6, 2.0 - 1.6e-5, 1.0], "close2p20": [1.0, 1.0 - 2.0 ** -20, 1.0 - 2.0 ** -19, 0.25],
+        "f32mid": [1.0, 0.75 + 2.0 ** -25, 0.5 + 2.0 ** -25, 0.3125 + 2.0 ** -26], "f16mid": [1.0, 0.75 + 2.0 ** -12, 0.5 + 2.0 ** -12, 0.3125 + 2.0 ** -13],
+        "f32mid_below": [1.0, 0.75 + 2.0 ** -25 - 2.0 ** -52, 0.5 + 2.0 ** -25 - 2.0 ** -53, 0.3125 + 2.0 ** -26 + 2.0 ** -54],
+    }
+    for sname, sv_ in SPECIAL_SPECTRA.items():
+        p_ = len(sv_)
+        for (m, n) in ((p_ + 2, p_ + 1), (p_ + 1, p_ + 3), (p_ + 4, p_ + 4)):
+            for fn, args in (("rand_qsvd", (0, 1, 2)), ("pass_eff_qsvd", (2, 3, 4))):
+                for arg in args:
+                    for P in (0, 2, 5):
+                        out.append({"key": f"spectrum/{sname}/{fn}/{m}x{n}/P={P}/arg={arg}", "fn": fn, "m": m, "n": n, "r": p_, "R": p_, "P": P, "arg": arg, "vals": sv_, "S": 3})
     # whole-matrix scalings (thresholds inside the algorithms must be relative)
     for m, n in ((3, 3), (4, 3), (3, 4)):
         for e in (-50, 40):
@@ -79,7 +92,10 @@ def run_case(case, seed):
     fill = G.Fill(seed, stream=hash_tag(f"{m}x{n}/r={r}"))
     vals = VALS[:r] + [0.0] * (p - r)
     lay = "C"
-    if case.get("graded"):
+    if case.get("vals"):
+        vals = list(case["vals"]) + [0.0] * (p - len(case["vals"]))
+        A, _, _ = SG.build(m, n, vals, "hh", "hh", fill, variant=7)
+    elif case.get("graded"):
         vals = [4.0, 2.0, 1.0, 2.0 ** -36]
         A, _, _ = SG.build(m, n, vals, "hh", "hh", fill, variant=5)
     elif case.get("mask") or case.get("xf"):
@@ -130,6 +146,11 @@ def run_case(case, seed):
             fails.append(fail("finite", f"seed {sd}", **t2))
             continue
         tolu = 1e-9
+        if case.get("vals"):
+            nzv_ = sorted({v for v in vals if v > 0}, reverse=True)
+            gap_rel_ = min(((a - b) / nzv_[0] for a, b in zip(nzv_, nzv_[1:])), default=1.0)
+            if gap_rel_ < 2.0 ** -12:  # close singular values: accuracy ~ u sigma_1 / gap (see C05); gross errors are still decided
+                tolu = max(tolu, 512 * O.U / gap_rel_)
         dU, dV = O.unitarity_defect(U), O.unitarity_defect(V)
         cu = (vals[0] / vals[r - 1]) * O.U if r >= 1 else 1.0
         if dU > tolu:
